@@ -265,6 +265,7 @@ type Query {
   fon(x: In!): Int
   flo(x: [In]): Int
   fp(x: Pt): Int
+  f2(x: Int, y: Int, z: En): Int
 }
 enum En { A BC }
 input In { r: Int! d: Int = 7 o: Int l: [Int!] e: En }
@@ -1231,4 +1232,35 @@ func C04_args_nested_var() {
 	res := root.ResolveString(c.doc, "", map[string]interface{}{"v": val})
 	sym.Observe("calls", n.calls)
 	c04Judge(n, res, c.t, c.mk(v), strict)
+}
+
+// C04_args_pair: a field with several arguments, exactly one of them written
+// with a value that cannot be coerced (E position: first, middle or last in
+// declaration order; any order in the request): the failure of one argument
+// is not forgotten because a later one is fine.
+func C04_args_pair() {
+	n := &c04Node{}
+	root := c04Root(n)
+	bad := sym.Choice("bad argument", 4) // 3: none
+	vals := []string{"1", "2", "A"}
+	wrong := [][]string{{`"s"`, "4294967297", "1.5", "$u"}, {"true", "-2147483649", "[1]"}, {"Z", `"A"`, "1"}}
+	if bad < 3 {
+		vals[bad] = wrong[bad][sym.Choice("bad value", len(wrong[bad]))]
+	}
+	names := []string{"x", "y", "z"}
+	perm := [][]int{{0, 1, 2}, {2, 1, 0}, {1, 2, 0}}[sym.Choice("written order", 3)]
+	args := ""
+	for _, k := range perm {
+		args += names[k] + ":" + vals[k] + " "
+	}
+	doc := "query($u:Int!){f2(" + args + ")}"
+	sym.Observe("doc", doc)
+	res := root.ResolveString(doc, "", nil)
+	errs, _ := res["errors"].([]interface{})
+	if bad == 3 {
+		sym.Assert(n.calls == 1 && len(errs) == 0, "well-typed arguments accepted")
+		return
+	}
+	sym.Assert(n.calls == 0, "value that cannot be coerced never reaches the resolver")
+	sym.Assert(len(errs) > 0, "a refused argument is reported as an error")
 }
